@@ -3,6 +3,7 @@
 package main
 
 import (
+	"errors"
 	"fmt"
 	"strings"
 	"time"
@@ -168,6 +169,8 @@ func c16DoneClosed(cli *mqtt.BaseClient) bool {
 	return i == 0
 }
 
+var errC16Close = errors.New("closing handshake failed")
+
 func runC16(c *Ctx) {
 	c16Base(c)
 	c16Reconnecting(c)
@@ -185,7 +188,7 @@ func c16Base(c *Ctx) {
 	if c.Thorough() {
 		p = 2
 	}
-	c.Bound("base", fmt.Sprintf("BaseClient: CONNACK %v x ending %v x Disconnect %v x order %v; endings racing with each other and with Connect; P<=%d S<=1", connacks, endings, disc, orders, p))
+	c.Bound("base", fmt.Sprintf("BaseClient: CONNACK %v x ending %v x Disconnect %v x order %v; endings racing with each other and with Connect; for endings other than a local Close (no Disconnect), Transport.Close alternatively returns an error; P<=%d S<=1", connacks, endings, disc, orders, p))
 	for _, ca := range connacks {
 		for _, e := range endings {
 			for _, d := range disc {
@@ -209,6 +212,18 @@ func c16Base(c *Ctx) {
 							m := c16NewMon(&clock)
 							cli := &mqtt.BaseClient{Transport: s.Conn, ConnState: m.callback}
 							m.cli = cli
+							closeFails := false
+							if d == "none" && e != "none" && e != "local-close" && ca == "accept" {
+								// the transport's Close reports an error of its own (a closing handshake that fails on a dead link)
+								if closeFails = vrt.Choose(vrt.KFree, 2, "Transport.Close succeeds / returns an error") == 1; closeFails {
+									s.Conn.CloseErr = errC16Close
+								}
+							}
+							defer func() {
+								if err := cli.Err(); closeFails && err != nil && errors.Is(err, errC16Close) {
+									vrt.Failf("c16/err-is-not-what-ended-it", "CONNACK %s, ending %s: the connection was ended by the peer / a protocol error / a failing write, but Err() reports the error Transport.Close returned while cleaning up: %v\n %s", ca, e, err, m.String())
+								}
+							}()
 							s.OnPacket = func(_ *env.Script, pk *env.Packet) {
 								switch pk.Type {
 								case env.CONNECT:
